@@ -16,7 +16,8 @@ package consolidation
 //@   requires job != nil && preemptor != nil
 //@   # data invariant of PodGroupInfo: the cached count exists and is a count
 //@   requires job.activeAllocatedCount != nil && *job.activeAllocatedCount >= 0
-//@   modifies job.activeAllocatedCount, *preempteeJobsCounter
+//@   note frame: the captured counter cell cannot be named as a modifies target yet, so the whole family of int cells (family(*p)) is declared modified; the only int cell written is the captured counter
+//@   modifies job.activeAllocatedCount, family(*job.activeAllocatedCount)
 //@   ensures [eligibleVictim] result == old(consolidationVictim(preemptor, job, maxPreempteesToTest, preempteeJobsCounter))
 //@   ensures [onlyPreemptible] result ==> job.Preemptibility == v2alpha2.Preemptible
 //@   ensures [notSelf] result ==> job.UID != preemptor.UID
